@@ -1,5 +1,5 @@
 /-
-  C08 — Transfer outcome does not depend on where reception pre-empts the job thread (J1939-21 part).
+  C08 — Transfer outcome does not depend on where reception pre-empts the job thread (J1939-21, then J1939-22).
   Model: Model/Pre21.lean — the background pass iterates over key snapshots of the two session tables; the receive
   thread handles a frame before the K-th session lookup (K arbitrary).  Tied to j1939_21.py by lock-step
   correspondence in which the REAL pass is pre-empted from a line tracer at exactly those points.
@@ -10,6 +10,8 @@ import J1939.Lemmas.PyDict
 import J1939.Lemmas.Tactics
 import J1939.Lemmas.Dll21Tick
 import J1939.Props.C07
+import J1939.Model.Pre22
+import J1939.Lemmas.Dll22Tick
 namespace J1939.Props.C08
 open J1939 J1939.Gen J1939.Dll21 J1939.Pre21
 
@@ -325,4 +327,223 @@ theorem c08_rx_change_wakes (cfg : Cfg) (s : St) (now : Nat) (acc : Nat → Bool
       | (right; left; simp; done)
       | (right; right; rfl)
 
+end J1939.Props.C08
+
+namespace J1939.Props.C08
+open J1939 J1939.Gen
+
+/-! ## J1939-22 (FD) -/
+section fd
+open J1939.Dll22 J1939.Pre22
+
+/-- J1939-22: the receive thread never adds or removes a send session and never touches a multi-PG buffer -/
+theorem c08_22_rx_keeps_snd_keys (cfg : Cfg) (s : St) (now : Nat) (acc : Nat → Bool) (canId : Nat) (data : List Nat) :
+    (notify cfg s now acc canId data).st.snd.keys = s.snd.keys ∧ (notify cfg s now acc canId data).st.mpg = s.mpg := by
+  unfold notify
+  dsimp only
+  repeat' split
+  all_goals first
+    | exact ⟨rfl, rfl⟩
+    | skip
+  · unfold processCm
+    dsimp only
+    repeat' split
+    all_goals first
+      | exact ⟨rfl, rfl⟩
+      | (refine ⟨?_, rfl⟩; simp only; exact keys_set_of_get? _ _ _ _ (by assumption))
+  · unfold processDt
+    dsimp only
+    repeat' split
+    all_goals exact ⟨rfl, rfl⟩
+
+theorem tickSnd_frame (cfg : Cfg) (now : Nat) (ks : List Nat) (s : St) (nw : Nat) (o : List Out) :
+    (∀ k, k ∉ ks → (tickSnd cfg now ks s nw o).1.snd.get? k = s.snd.get? k) ∧ (tickSnd cfg now ks s nw o).1.mpg = s.mpg ∧
+    (tickSnd cfg now ks s nw o).1.rcv = s.rcv := by
+  induction ks generalizing s nw o with
+  | nil => exact ⟨fun _ _ => rfl, rfl, rfl⟩
+  | cons k ks ih =>
+    unfold tickSnd
+    cases hg : s.snd.get? k with
+    | none => exact ⟨fun _ _ => rfl, rfl, rfl⟩
+    | some buf =>
+      simp only
+      have happ : ∀ k', k' ≠ k → (sndApply s k (tickSndOne cfg now buf).1).snd.get? k' = s.snd.get? k' := by
+        intro k' hne
+        cases (tickSndOne cfg now buf).1 with
+        | some b => exact PyDict.get?_set_ne _ _ _ _ hne
+        | none => exact PyDict.get?_erase_ne _ _ _ hne
+      have happ2 : (sndApply s k (tickSndOne cfg now buf).1).mpg = s.mpg ∧ (sndApply s k (tickSndOne cfg now buf).1).rcv = s.rcv := by
+        cases (tickSndOne cfg now buf).1 <;> exact ⟨rfl, rfl⟩
+      cases (tickSndOne cfg now buf).2.2.1 with
+      | some e =>
+        simp only
+        exact ⟨fun k' hk' => happ k' (by intro h; subst h; exact hk' (List.mem_cons_self ..)), happ2.1, happ2.2⟩
+      | none =>
+        simp only
+        cases hrel : release (sndApply s k (tickSndOne cfg now buf).1) (tickSndOne cfg now buf).2.2.2.2 with
+        | none =>
+          simp only
+          exact ⟨fun k' hk' => happ k' (by intro h; subst h; exact hk' (List.mem_cons_self ..)), happ2.1, happ2.2⟩
+        | some s2 =>
+          simp only
+          have hs2 : s2.snd = (sndApply s k (tickSndOne cfg now buf).1).snd ∧ s2.mpg = (sndApply s k (tickSndOne cfg now buf).1).mpg ∧
+              s2.rcv = (sndApply s k (tickSndOne cfg now buf).1).rcv := by
+            unfold release at hrel
+            split at hrel
+            · cases hrel; exact ⟨rfl, rfl, rfl⟩
+            · simp only [Option.map_eq_some_iff] at hrel; obtain ⟨p, _, rfl⟩ := hrel; exact ⟨rfl, rfl, rfl⟩
+            · simp only [Option.map_eq_some_iff] at hrel; obtain ⟨p, _, rfl⟩ := hrel; exact ⟨rfl, rfl, rfl⟩
+          obtain ⟨i1, i2, i3⟩ := ih s2 _ _
+          refine ⟨?_, by rw [i2, hs2.2.1, happ2.1], by rw [i3, hs2.2.2, happ2.2]⟩
+          intro k' hk'
+          rw [i1 k' (fun h => hk' (List.mem_cons_of_mem _ h)), hs2.1]
+          exact happ k' (by intro h; subst h; exact hk' (List.mem_cons_self ..))
+
+theorem tickMpg_frame (now : Nat) (ks : List Nat) (s : St) (nw : Nat) (o : List Out) :
+    (∀ k, k ∉ ks → (tickMpg now ks s nw o).1.mpg.get? k = s.mpg.get? k) ∧ (tickMpg now ks s nw o).1.snd = s.snd := by
+  induction ks generalizing s nw o with
+  | nil => exact ⟨fun _ _ => rfl, rfl⟩
+  | cons k ks ih =>
+    unfold tickMpg
+    cases hg : s.mpg.get? k with
+    | none => exact ⟨fun _ _ => rfl, rfl⟩
+    | some buf =>
+      simp only
+      split
+      · obtain ⟨i1, i2⟩ := ih s (if nw > buf.deadline then buf.deadline else nw) o
+        exact ⟨fun k' hk' => i1 k' (fun h => hk' (List.mem_cons_of_mem _ h)), i2⟩
+      · split
+        · exact ⟨fun _ _ => rfl, rfl⟩
+        · rename_i f _
+          obtain ⟨i1, i2⟩ := ih { s with mpg := s.mpg.erase k } nw (o ++ [.tx f])
+          refine ⟨?_, i2⟩
+          intro k' hk'
+          rw [i1 k' (fun h => hk' (List.mem_cons_of_mem _ h))]
+          exact PyDict.get?_erase_ne _ _ _ (by intro h; subst h; exact hk' (List.mem_cons_self ..))
+
+
+theorem afterRcv_ok (cfg : Cfg) (acc : Nat → Bool) (now K : Nat) (frame : Nat × List Nat) (s1 : St) (nw1 : Nat) (pre : List Out)
+    (hnow : 0 < now) (hc : CfgPos cfg) (hwf : WF s1) (hnw : now < nw1) :
+    (afterRcv cfg acc now K frame s1 nw1 pre).err = none ∧ WF (afterRcv cfg acc now K frame s1 nw1 pre).st ∧
+    now < (afterRcv cfg acc now K frame s1 nw1 pre).wakeup := by
+  unfold afterRcv
+  dsimp only
+  have hsplitM := List.take_append_drop K s1.mpg.keys
+  have hndM : (s1.mpg.keys.take K ++ s1.mpg.keys.drop K).Nodup := by rw [hsplitM]; exact hwf.mkeys
+  obtain ⟨hndT, hndD, hdisj⟩ := List.nodup_append.mp hndM
+  split
+  · -- inside the multi-PG loop
+    obtain ⟨m1, m2, m3⟩ := tickMpg_ok now (s1.mpg.keys.take K) s1 nw1 pre hndT
+      (fun k hk => PyDict.get?_isSome_of_mem_keys _ _ (List.mem_of_mem_take hk)) hwf hnw
+    obtain ⟨f1, _⟩ := tickMpg_frame now (s1.mpg.keys.take K) s1 nw1 pre
+    generalize tickMpg now (s1.mpg.keys.take K) s1 nw1 pre = res2 at *
+    obtain ⟨s2, nw2, o2, e2⟩ := res2
+    simp only at m1 m2 m3 f1
+    subst m1
+    simp only
+    have hwf3 : WF (rx cfg acc now frame s2).1 := notify_wf cfg s2 now acc frame.1 frame.2 hnow m2
+    have hk3 := (c08_22_rx_keeps_snd_keys cfg s2 now acc frame.1 frame.2).2
+    generalize hrx : rx cfg acc now frame s2 = res3 at *
+    obtain ⟨s3, ro, re⟩ := res3
+    have hmpg3 : s3.mpg = s2.mpg := by
+      have : s3 = (notify cfg s2 now acc frame.1 frame.2).st := by
+        have := congrArg (·.1) hrx; simpa [rx] using this.symm
+      rw [this]; exact hk3
+    simp only at hwf3 ⊢
+    obtain ⟨q1, q2, q3⟩ := tickMpg_ok now (s1.mpg.keys.drop K) s3 nw2 [] hndD
+      (by intro k hk
+          have hnot : k ∉ s1.mpg.keys.take K := fun h => hdisj k h k hk rfl
+          rw [hmpg3, f1 k hnot]
+          exact PyDict.get?_isSome_of_mem_keys _ _ (List.mem_of_mem_drop hk)) hwf3 m3
+    generalize tickMpg now (s1.mpg.keys.drop K) s3 nw2 [] = res4 at *
+    obtain ⟨s4, nw4, o4, e4⟩ := res4
+    simp only at q1 q2 q3
+    subst q1
+    simp only
+    obtain ⟨t1, t2, t3⟩ := tickSnd_ok cfg now hc s4.snd.keys s4 nw4 o4 q2.sk (fun k hk => PyDict.get?_isSome_of_mem_keys _ _ hk) q2 q3
+    generalize tickSnd cfg now s4.snd.keys s4 nw4 o4 = res5 at *
+    obtain ⟨s5, nw5, o5, e5⟩ := res5
+    exact ⟨t1, t2, t3⟩
+  · -- inside the send loop, or after the last lookup
+    obtain ⟨m1, m2, m3⟩ := tickMpg_ok now s1.mpg.keys s1 nw1 pre hwf.mkeys (fun k hk => PyDict.get?_isSome_of_mem_keys _ _ hk) hwf hnw
+    generalize tickMpg now s1.mpg.keys s1 nw1 pre = res2 at *
+    obtain ⟨s2, nw2, o2, e2⟩ := res2
+    simp only at m1 m2 m3
+    subst m1
+    simp only
+    have hsplit := List.take_append_drop (K - s1.mpg.keys.length) s2.snd.keys
+    have hnd' : (s2.snd.keys.take (K - s1.mpg.keys.length) ++ s2.snd.keys.drop (K - s1.mpg.keys.length)).Nodup := by rw [hsplit]; exact m2.sk
+    obtain ⟨sT, sD, sdisj⟩ := List.nodup_append.mp hnd'
+    obtain ⟨q1, q2, q3⟩ := tickSnd_ok cfg now hc (s2.snd.keys.take (K - s1.mpg.keys.length)) s2 nw2 o2 sT
+      (fun k hk => PyDict.get?_isSome_of_mem_keys _ _ (List.mem_of_mem_take hk)) m2 m3
+    obtain ⟨g1, _, _⟩ := tickSnd_frame cfg now (s2.snd.keys.take (K - s1.mpg.keys.length)) s2 nw2 o2
+    generalize tickSnd cfg now (s2.snd.keys.take (K - s1.mpg.keys.length)) s2 nw2 o2 = res3 at *
+    obtain ⟨s3, nw3, o3, e3⟩ := res3
+    simp only at q1 q2 q3 g1
+    subst q1
+    simp only
+    have hwf4 : WF (rx cfg acc now frame s3).1 := notify_wf cfg s3 now acc frame.1 frame.2 hnow q2
+    have hkeys4 : (rx cfg acc now frame s3).1.snd.keys = s3.snd.keys := (c08_22_rx_keeps_snd_keys cfg s3 now acc frame.1 frame.2).1
+    generalize rx cfg acc now frame s3 = res4 at *
+    obtain ⟨s4, ro, re⟩ := res4
+    simp only at hwf4 hkeys4 ⊢
+    have hpres : ∀ k ∈ s2.snd.keys.drop (K - s1.mpg.keys.length), (s4.snd.get? k).isSome = true := by
+      intro k hk
+      have hnot : k ∉ s2.snd.keys.take (K - s1.mpg.keys.length) := fun h => sdisj k h k hk rfl
+      have h3 : (s3.snd.get? k).isSome = true := by
+        rw [g1 k hnot]; exact PyDict.get?_isSome_of_mem_keys _ _ (List.mem_of_mem_drop hk)
+      have : k ∈ s4.snd.keys := by rw [hkeys4]; exact (mem_keys_iff_get? _ _).mpr h3
+      exact (mem_keys_iff_get? _ _).mp this
+    obtain ⟨t1, t2, t3⟩ := tickSnd_ok cfg now hc (s2.snd.keys.drop (K - s1.mpg.keys.length)) s4 nw3 [] sD hpres hwf4 q3
+    generalize tickSnd cfg now (s2.snd.keys.drop (K - s1.mpg.keys.length)) s4 nw3 [] = res5 at *
+    obtain ⟨s5, nw5, o5, e5⟩ := res5
+    exact ⟨t1, t2, t3⟩
+
+/-- C08 (J1939-22), THE PRE-EMPTED PASS SURVIVES: from a well-formed state, whatever frame the receive thread handles
+    before whichever lookup of the pass (in the receive loop, the multi-PG loop, the send loop, between them, after the
+    last) — the background thread raises nothing, the tables are well-formed afterwards and the wake-up it asks for is
+    strictly in the future -/
+theorem c08_22_pre_pass_ok (cfg : Cfg) (acc : Nat → Bool) (s : St) (now K : Nat) (frame : Nat × List Nat)
+    (hnow : 0 < now) (hc : CfgPos cfg) (hwf : WF s) :
+    (Pre22.tickPre cfg acc s now K frame).err = none ∧ WF (Pre22.tickPre cfg acc s now K frame).st ∧
+    now < (Pre22.tickPre cfg acc s now K frame).wakeup := by
+  have hidle : 0 < Const.Ecu.idle_wakeup := by decide
+  unfold Pre22.tickPre
+  dsimp only
+  split
+  · obtain ⟨r1, r2, r3⟩ := tickRcv_ok now (s.rcv.keys.take K) s (now + Const.Ecu.idle_wakeup) [] hwf (by omega)
+    generalize tickRcv now (s.rcv.keys.take K) s (now + Const.Ecu.idle_wakeup) [] = res1 at *
+    obtain ⟨s1, nw1, o1, e1⟩ := res1
+    simp only at r1 r2 r3
+    subst r1
+    simp only
+    have hwf2 : WF (rx cfg acc now frame s1).1 := notify_wf cfg s1 now acc frame.1 frame.2 hnow r2
+    generalize rx cfg acc now frame s1 = res2 at *
+    obtain ⟨s2, ro, re⟩ := res2
+    simp only at hwf2 ⊢
+    obtain ⟨q1, q2, q3⟩ := tickRcv_ok now (s.rcv.keys.drop K) s2 nw1 [] hwf2 r3
+    generalize tickRcv now (s.rcv.keys.drop K) s2 nw1 [] = res3 at *
+    obtain ⟨s3, nw3, o3, e3⟩ := res3
+    simp only at q1 q2 q3
+    subst q1
+    simp only
+    obtain ⟨m1, m2, m3⟩ := tickMpg_ok now s3.mpg.keys s3 nw3 o3 q2.mkeys (fun k hk => PyDict.get?_isSome_of_mem_keys _ _ hk) q2 q3
+    generalize tickMpg now s3.mpg.keys s3 nw3 o3 = res4 at *
+    obtain ⟨s4, nw4, o4, e4⟩ := res4
+    simp only at m1 m2 m3
+    subst m1
+    simp only
+    obtain ⟨t1, t2, t3⟩ := tickSnd_ok cfg now hc s4.snd.keys s4 nw4 o4 m2.sk (fun k hk => PyDict.get?_isSome_of_mem_keys _ _ hk) m2 m3
+    generalize tickSnd cfg now s4.snd.keys s4 nw4 o4 = res5 at *
+    obtain ⟨s5, nw5, o5, e5⟩ := res5
+    exact ⟨t1, t2, t3⟩
+  · obtain ⟨r1, r2, r3⟩ := tickRcv_ok now s.rcv.keys s (now + Const.Ecu.idle_wakeup) [] hwf (by omega)
+    generalize tickRcv now s.rcv.keys s (now + Const.Ecu.idle_wakeup) [] = res1 at *
+    obtain ⟨s1, nw1, o1, e1⟩ := res1
+    simp only at r1 r2 r3
+    subst r1
+    simp only
+    exact afterRcv_ok cfg acc now _ frame s1 nw1 o1 hnow hc r2 r3
+
+end fd
 end J1939.Props.C08
